@@ -226,6 +226,20 @@ def run(tier: str, seed: int) -> int:
     for i, (p, d) in enumerate(sq.stratified(corpus, lambda x: x[1], 56 if quick else 600, seed + 5)):
         for j, mt in enumerate(mutate.mutants(sq.read(p), 1, rnd)):
             items.append((mt, d, f"<mutant of {p}>", f"m{i}.{j}"))
+    # clause-starting words used as identifiers: the parser backtracks over them and retries the same element at
+    # the same position under differently trimmed views
+    for i, (p, d) in enumerate(sq.stratified(corpus, lambda x: x[1], 84 if quick else 900, seed + 6)):
+        text = sq.read(p)
+        if len(text) > 3000:
+            text = text[:3000]
+        for j in range(2):
+            items.append((mutate.keyword_as_identifier(text, rnd), d, f"<keyword-as-identifier in {p}>", f"k{i}.{j}"))
+    for i, q in enumerate(["SELECT a FROM t1 JOIN {w} t2 ON t1.a = t2.a\n", "SELECT a FROM {w} WHERE a IN (SELECT b FROM {w})\n",
+                           "SELECT x OVER {w} FROM t WINDOW {w} AS (PARTITION BY x)\n", "SELECT {w} FROM t ORDER BY {w}\n",
+                           "WITH {w} AS (SELECT 1) SELECT * FROM {w}\n", "SELECT a AS {w}, b {w} FROM t {w}\n"]):
+        for w in mutate.CLAUSE_WORDS[:: (3 if quick else 1)]:
+            for d in ("ansi", "postgres", "tsql") if not quick else ("ansi",):
+                items.append((q.format(w=w), d, f"<clause word {w}>", f"w{i}.{w}.{d}"))
     ftraces = cache.cached("c06-files", [tier, seed, len(items)], lambda: pmap(file_case, items, chunksize=2))
     rep.evaluated(len(ftraces) * 5)
     val = validate_traces("ParseDetTrace", [{"id": t["id"], "events": t["events"]} for t in ftraces], timeout=1800)
